@@ -51,6 +51,7 @@ template struct WithStatics<double>;
 
 // direct reductions inside a "factorization" (C03-D2 / C07-D1 positive control)
 #include <Eigen/Core>
+#include <Eigen/SparseCore>
 namespace SpectraControl {
 struct DirectReductions
 {
@@ -134,6 +135,25 @@ struct KeepsParameterRef
     ConstGenericMatrix m_mat;
     KeepsParameterRef(ConstGenericMatrix& mat) : m_mat(mat) {}
     double first() const { return m_mat(0, 0); }
+};
+struct ViewStorageScan
+{
+    // raw value array of a sparse VIEW scanned from its start: for an inner-panel block the array is the parent's
+    static double flat(const Eigen::Ref<const Eigen::SparseMatrix<double>>& m)
+    {
+        double s = 0;
+        const double* v = m.valuePtr();
+        for (long i = 0; i < m.nonZeros(); i++) s += v[i];
+        return s;
+    }
+    // the same scan placed by the view's own outer index array: fine
+    static double placed(const Eigen::Ref<const Eigen::SparseMatrix<double>>& m)
+    {
+        double s = 0;
+        const double* v = m.valuePtr();
+        for (long i = m.outerIndexPtr()[0]; i < m.outerIndexPtr()[m.outerSize()]; i++) s += v[i];
+        return s;
+    }
 };
 inline double use_controls(const Eigen::MatrixXd& A)
 {
